@@ -47,7 +47,7 @@ CHECKS = {
    text="Same specification and replay as C04. TLC checks NoLoss, NoDup, OnlyCommitted exhaustively on the model; in the replay the record streams must equal the spec's after every step (interleaving by timestamp, ties included), and at the end of settled behaviours every event committed on any device must occur in the converged server log exactly once (byte-identical independent events at least once) and nothing else; after every sync the served folder must equal the replay of its event log and the persisted vault (the merge replay path of C02).",
    note="As C04."),
  "C14": dict(
-   level="model_checking", design="DESIGN.md 6.11, 7 (C14)",
+   level="model_checking", design="DESIGN.md 0A.2, 6.10, 7 (C14)",
    technique="TLA+ spec Codec.tla over the value-shape schema CodecSchema.tla (74 stored / transmitted types, 21,153 shapes) model-checked with TLC (RoundTrip, Deterministic, Canonical); every shape TLC enumerates is instantiated on the real binary, protobuf and database-row codecs; the schema printed by TLC is cross-checked against the harness catalogue",
    text="CodecSchema.tla lists per type the dimensions spanning its value space (every enum variant incl. all 15 secret kinds and all event kinds, each optional member, collection sizes 0/1/3/many, empty / ASCII / non-ASCII / control / 70 KB strings, zero / one / max numbers, timestamps at the boundaries, flags). Codec.tla encodes a value on two devices and decodes one encoding; TLC checks RoundTrip, Deterministic and Canonical on all shapes and prints each shape. The harness builds every shape five times independently and checks decode(encode(v)) = v (PartialEq, or a full projection where the type has none), byte-equal encodings of the independent builds, byte-equal re-encoding of every decoding, and absence of panics, for sos_core::encode/decode, WireEncodeDecode and EventRecordRow <-> EventRecord (in memory and through sqlite tables).",
    note="The value space is the one spanned by the schema's dimensions; relay / pairing packets and the crate-private Auth type are not covered; determinism across processes is not compared. KNOWN-FINDINGs: RowDropsLastCommit, RowNegativeYear, SharedAccessCountU16."),
@@ -72,12 +72,12 @@ CHECKS = {
    text="Crash.tla refines create/update/delete of a secret and folder compaction into the writes the code performs on the persisted vault, the folder event log, its snapshot and the account log, for the file-system and the sqlite backend; TLC enumerates pre-history x crashing operation x step boundary and shows that the intended design (atomic log replacement, vault reconciled with the log on open) satisfies OpensAfterCrash, LogBeforeOrAfter and FolderEqReplayAfterRecover. Each crashed state of the code-faithful model becomes one process-level test: a child performs the pre-history on a real account, arms the probe of that boundary and dies by abort(); the parent re-opens through the normal path and checks that the account opens, the folder log is the one before or after the operation, reduce(log) = served = persisted and the integrity report is clean. Failures at crash points listed in known_findings.jsonl (keyed by backend, crash point and failure class) print KNOWN-FINDING; any other is a VIOLATION.",
    note="Process death between writes only (completed writes are applied in order); torn writes inside one write() and power-loss reordering are not enumerated; operations covered: secret create/update/delete, compaction (folder create/delete, merges, key changes have probes but are not yet in Crash.tla)."),
  "C03": dict(
-   level="model_checking", design="DESIGN.md 6.9, 7 (C03)",
+   level="model_checking", design="DESIGN.md 0A.2, 7 (C03)",
    technique="TLA+ spec Flow.tla (operations write clear / sealed-under-key tokens to sinks; observer closure) model-checked with TLC; simulated behaviours executed on two LocalAccount devices and an in-process server with a byte scan of every sink after every step compared with the specification's predicted clear tokens",
    text="Flow.tla gives, for every operation (create / update / move a secret of each kind, file secret, create / rename / describe a folder, sync of a device, backup export), the tokens written to each sink (device storage, server storage, wire, archive, audit log) in the clear or sealed under a key; TLC checks OnlyNamesInClear, NothingRecoverable, AccountPasswordNowhere and NamesFollowSync on all states of short histories and the harness replays long simulated behaviours on real accounts (file-system and sqlite clients and servers). After every operation every file under the device and server directories, every buffer that crossed the in-process wire, every archive (raw and per decompressed entry) and the audit log is scanned for every marker planted so far (label, tags, each field of all 15 secret kinds, comment, recovery note, nested custom fields, embedded and external file content and names, folder descriptions), the account password, the folder passwords and every secret stored in the identity folder, in raw, hex, base64 (3 alignments, 2 alphabets) and UTF-16 forms. A secret class found anywhere is a VIOLATION; the marker-bearing folder names found per sink must equal the prediction of Flow.tla after every step (this keeps the scanner honest: names must appear on the server / wire / other device exactly after the sync that carries them).",
    note="Pairing, relay and HTTP file-transfer bodies are not executed; tracing output of the server is not captured; a leak is recognised only in the listed encodings; search index is memory-only and not scanned."),
  "C10": dict(
-   level="model_checking", design="DESIGN.md 6.8, 7 (C10)",
+   level="model_checking", design="DESIGN.md 0A, 6.9, 7 (C10)",
    technique="TLA+ spec Crypto.tla (Enc / Tamper / Dec over ciphers, keys, nonces, tamper classes) model-checked with TLC; every class of decryption attempt TLC emits is instantiated on sos_core::crypto at every bit / offset; nonces recorded from real account histories validated as a trace of Enc with CryptoTrace.tla",
    text="Crypto.tla states RoundTrip, TamperFails, KeyBound and NonceFresh and TLC checks them on all reachable states for 3 ciphers x 2 keys x 2 nonces x 8 tamper classes; each decryption class (encrypting cipher x decrypting cipher x same/other key x tamper class) is executed on Cipher::{AesGcm256, XChaCha20Poly1305, X25519} for plaintexts of 0, 1, 15, 16, 17, 100, 4096 bytes (and 3 MiB in thorough) through the binary encoding of AeadPack, at every nonce bit, every ciphertext bit (sampled on large blobs), truncations at either end, extensions, part swaps with a sibling blob, other nonce length and empty ciphertext: refused classes must return an error, intact blobs their exact plaintext, nothing may panic. Argon2id / Balloon derivation is checked deterministic and pairwise distinct over passwords x salts x seeds; built vaults and the folders of a generated account verify only their own password. Every (key epoch, nonce) found in vaults and event logs of a random account history on both backends is a trace that CryptoTrace.tla must accept as a behaviour of Enc (a repeated pair is rejected; the check verifies the rejection on a mutated copy).",
    note="Forgery resistance of the AEAD primitives is assumed; nonce freshness is decided on the recorded executions (random 96/192-bit nonces), not proved for the RNG. KNOWN-FINDING AgeNonceUnbound: the nonce field of X25519 packs is not bound."),
@@ -87,7 +87,7 @@ CHECKS = {
    text="ServerAuth.tla decides for every access configuration (none, allow, allow-without-A, deny, deny-other, allow+deny), trust history (second device trusted, then revoked through the device event log), API endpoint (16 route/method pairs incl. files and the websocket upgrade) and credential form (none, malformed, unknown key, another account's device key, trusted key over other bytes / another path, legacy token formats, missing account header, trusted key, second device) whether a request may be accepted; TLC checks AcceptOnlyIfTrusted, DenyListWins and RefusedUnchanged on all reachable combinations. Each is replayed against a real server process-internal instance over HTTP: refused combinations must answer 400/401/403 and leave sync status, device set and every file under the server data directory unchanged; accepted combinations must not be rejected by authorisation; the server must still answer at the end.",
    note="Accepted-expected cases are not sent for DELETE /sync/account and the websocket upgrade; the route table is a constant of MC_ServerAuth.tla (a newly added unauthenticated route would not be noticed); Ed25519 unforgeability."),
  "C17": dict(
-   level="model_checking", design="DESIGN.md 6.10, 7 (C17)",
+   level="model_checking", design="DESIGN.md 0A.2, 6.5, 7 (C17)",
    technique="TLA+ specs Upload.tla (server receive_file steps for concurrent uploads under the file lock) and Files.tla (file-secret edits, transfer queue, log push, reader sync, downloads) model-checked with TLC; every terminal upload schedule replayed as gated streaming PUT requests against a live server; simulated file behaviours replayed on two NetworkAccount devices and a live server with set comparison against FileReducer",
    text="Upload.tla: create-temp / write-chunk / verify+rename / guard / abort of two uploads of one name, with the file_operation_lock; TLC checks NoPartialExposed, BadRefused, NoLeftovers, GoodAccepted (and shows the lock is what prevents an exposed corrupt file). All terminal schedules of the faithful model plus the racing schedules of the lock-less model are executed against PUT /api/v1/sync/file with bodies streamed chunk by chunk (correct, altered, truncated, empty, extended, dropped connection): the file readable under its name, on disk and through GET, must hash to the name after every step; wrong bodies must not be accepted; no temp file may remain; statuses must equal the model's on faithful schedules. Files.tla: CreateFile / UpdateFile / MoveFile / DeleteSecret / DeleteFolder on the editor, the transfer queue with normalize and MovedMissing, PushLog, SyncReader, Download; TLC checks EditorExact, ServerExact, ReaderExact, ServerSubset. Behaviours are executed on two NetworkAccount devices (real file transfers over HTTP): after every edit the editor's blob set = FileReducer(file log) = model set, each blob hashes to its name, the touched blob decrypts to the original bytes; within the settle time the server's blob set = reduce(server file log) = reduce(editor log) with no stray files; after each reader sync the reader's blob set = reduce(its file log).",
    note="Settle time 25 s per step; only the first device edits (as the property's quantifier says); file-system backend; attachments as custom fields are covered by C03's behaviours but not by the set comparison here."),
